@@ -51,6 +51,12 @@ func Base() string {
 		baseDir = d
 		// evid.Finish (which ends the process with os.Exit, so deferred calls do not run) removes it
 		os.Setenv("VERIF_SBX_BASE", d)
+		// temporary files made by git-lfs code running inside the driver process (and by child
+		// drivers) land below the scratch root as well, so that nothing is left behind in /tmp
+		pt := filepath.Join(d, "ptmp")
+		if os.MkdirAll(pt, 0o755) == nil {
+			os.Setenv("TMPDIR", pt)
+		}
 	})
 	return baseDir
 }
